@@ -109,6 +109,224 @@ def gen_scenario(r, cassis, tier="quick"):
     return {"ts": tspec, "cas": cspec}
 
 
+# ------------------------------------------------------------------------------------------------ third-wave widening
+# Two families of legal configurations scen.gen_cspec never produces (used by C04 and its JSON half; gen_scenario itself is
+# unchanged so that the scenarios of C01 / C16 stay what they were):
+#  * one feature name declared on several unrelated types with different ranges / multipleReferencesAllowed
+#    (clause "every non-null feature value, element order of collections": how a value is written depends on the
+#    declaration of the feature of THAT type, not on the bare name);
+#  * collections as ordinary reference targets: an FSArray (now and then a primitive array or an FSList node) held by a
+#    feature of range uima.cas.TOP, by the head of an FSList node, or nested as an element of another FSArray, with elements
+#    that are not indexed (clause "reachable through any chain of reference, array or list features", quantifier "FS
+#    reachable only through FSArray/FSList elements, through features of range TOP").
+
+SAME_NAME_RANGES = [  # (range, multipleReferencesAllowed)
+    (T + "StringArray", None), (T + "StringArray", False), (T + "StringArray", True), (T + "StringList", None),
+    (T + "StringList", True), (T + "IntegerArray", None), (T + "IntegerArray", True), (T + "DoubleArray", False),
+    (T + "BooleanArray", None), (T + "ByteArray", None), (T + "IntegerList", None), (T + "FloatList", False),
+    (T + "String", None), (T + "Integer", None), (T + "Boolean", None), (T + "Double", None),
+    (scen.FS_ARRAY, None), (scen.FS_ARRAY, True), (scen.FS_LIST, False), (scen.FS_LIST, True), (scen.TOP, None),
+]
+
+
+def _is_plain(o):
+    """an object that is not a collection object (array / list node) of the scenario"""
+    return not o["type"].startswith(T) or o["type"] == scen.TOP
+
+
+class _Adder:
+    """New objects for a finished cspec: fresh labels, and ids that keep the scenario inside ids_okb (explicit ids distinct,
+    apart from sofa ids, and - when some structure has no id - below the id generator, i.e. below the largest reserved id).
+    `above` is the JSON half's policy: ids well above everything (its model computes the generator from the scenario)."""
+
+    def __init__(self, r, cspec, above=None):
+        self.r, self.cspec, self.objs = r, cspec, cspec["objs"]
+        self.lab = max(o["o"] for o in self.objs)
+        nviews = len(cspec["views"])
+        self.used = {o["id"] for o in self.objs if o["id"] is not None} | set(range(1, nviews + 1))
+        self.idless = any(o["id"] is None for o in self.objs)
+        member = {l for _v, l in cspec["members"]}
+        self.cap = max([o["id"] for o in self.objs if o["o"] in member and o["id"] is not None] + [nviews])
+        self.above = above
+
+    def fresh_id(self):
+        if self.above is not None:
+            i = max(self.used | {self.above}) + self.r.randint(1, 3)
+        elif self.idless:
+            free = [k for k in range(1, self.cap) if k not in self.used]
+            if not free or self.r.random() < 0.3:
+                return None                      # one more structure that gets its id during the save
+            i = self.r.choice(free)
+        else:
+            i = next(k for k in range(self.r.choice([1, 1, max(self.used) + 1]), 10 ** 6) if k not in self.used)
+        self.used.add(i)
+        return i
+
+    def new(self, type_, slots):
+        self.lab += 1
+        self.objs.append({"o": self.lab, "type": type_, "id": self.fresh_id(), "slots": slots})
+        return self.lab
+
+    def mklist(self, base, elems):
+        cur = self.new(T + "Empty" + base + "List", {})
+        for e in reversed(elems):
+            cur = self.new(T + "NonEmpty" + base + "List", {"head": e, "tail": {"ref": cur}})
+        return cur
+
+
+def _value_for(r, add, schema, rng, plain):
+    """a value for a feature of range rng, built like scen.gen_cspec builds them"""
+    prim = next((a for a in ([rng] + schema.get(rng, {"anc": []})["anc"]) if a in scen.PRIMS), None)
+    n = r.choice([0, 1, 2, 3])
+
+    def ref_or_null():
+        return None if r.random() < 0.15 else {"ref": r.choice(plain)["o"]}
+
+    if prim:
+        return scen.rval(r, scen.PRIMS[prim])
+    if rng in scen.ARRS:
+        return {"ref": add.new(rng, {"elements": {"list": [scen.rval(r, scen.ARRS[rng]) for _ in range(n)]}})}
+    if rng in scen.LISTS:
+        return {"ref": add.mklist(scen.LISTS[rng][0], [scen.rval(r, scen.LISTS[rng][1]) for _ in range(n)])}
+    if rng == scen.FS_ARRAY:
+        return {"ref": add.new(rng, {"elements": {"list": [ref_or_null() for _ in range(n)]}})}
+    if rng == scen.FS_LIST:
+        return {"ref": add.mklist("FS", [ref_or_null() for _ in range(n)])}
+    c = [o for o in plain if rng in schema[o["type"]]["anc"]]
+    return {"ref": r.choice(c)["o"]} if c else None
+
+
+def same_name_features(r, cassis, tspec, cspec, above=None):
+    """Declares one new feature name on 2-3 types none of which is an ancestor of another, each time with another range /
+    multipleReferencesAllowed, and gives the structures of these types values.  Returns the declarations made."""
+    user = [t for t in tspec if t["super"] != T + "String"]
+    by = {t["name"]: t for t in tspec}
+
+    def ancestors(t):
+        out = []
+        while t is not None:
+            out.append(t["name"])
+            t = by.get(t["super"])
+        return out
+
+    existing = {f["name"] for t in tspec for f in t["feats"]}
+    name = next(n for n in ["labels", "k0", "k1", "k2"] if n not in existing)
+    order = list(user)
+    r.shuffle(order)
+    chosen = []
+    for t in order:
+        if all(t["name"] not in ancestors(u) and u["name"] not in ancestors(t) for u in chosen):
+            chosen.append(t)
+        if len(chosen) == 3:
+            break
+    chosen = chosen[:r.choice([2, 2, 3])]
+    if len(chosen) < 2:
+        return []
+    ranges = r.sample(SAME_NAME_RANGES, len(chosen))
+    if r.random() < 0.5:  # one of them a collection of strings: the kinds whose encoding differs most from the others'
+        ranges[r.randrange(len(ranges))] = r.choice(SAME_NAME_RANGES[:5])
+    if len({x[0] for x in ranges}) == 1 and len({bool(x[1]) for x in ranges}) == 1:
+        return []
+    made = []
+    for t, (rng, multi) in zip(chosen, ranges):
+        t["feats"].append({"name": name, "range": rng, "elem": None, "multi": multi})
+        made.append([t["name"], name, rng, multi])
+    schema = scen.schema_of(cassis, tspec)
+    add = _Adder(r, cspec, above)
+    plain = [o for o in cspec["objs"] if _is_plain(o)]
+    for o in plain:
+        for t, (rng, _multi) in zip(chosen, ranges):
+            if t["name"] in schema[o["type"]]["anc"] and r.random() < 0.85:
+                v = _value_for(r, add, schema, rng, plain)
+                if v is not None:
+                    o["slots"][name] = v
+    return made
+
+
+def collections_as_targets(r, cassis, tspec, cspec, above=None, schema=None):
+    """FSArrays (now and then a primitive array or an FSList) where scen.gen_cspec only puts plain structures: as the value of
+    a TOP-ranged feature, as the head of an FSList node, as an element of an FSArray whose holders do not restrict the
+    element type; their elements are preferably structures that are not indexed.  Returns the number of collections placed."""
+    schema = schema or scen.schema_of(cassis, tspec)
+    objs = cspec["objs"]
+    by = {o["o"]: o for o in objs}
+    plain = [o for o in objs if _is_plain(o)]
+    if not plain:
+        return 0
+    member = {l for _v, l in cspec["members"]}
+    loose = [o for o in plain if o["o"] not in member] or plain
+    add = _Adder(r, cspec, above)
+    # element types demanded by the features that hold an FSArray
+    elem_of = {}
+    for o in objs:
+        for f in schema.get(o["type"], {"feats": []})["feats"]:
+            v = o["slots"].get(f[0])
+            if v and "ref" in v and by.get(v["ref"], {}).get("type") == scen.FS_ARRAY:
+                elem_of.setdefault(v["ref"], []).append(f[3])
+    places = []
+    for o in list(objs):
+        if _is_plain(o):
+            for f in schema[o["type"]]["feats"]:
+                if f[2] == scen.TOP and f[0] != "sofa":
+                    places.append(("slot", o, f[0]))
+        elif o["type"] == T + "NonEmptyFSList":
+            places.append(("slot", o, "head"))
+        elif o["type"] == scen.FS_ARRAY and all(e in (None, scen.TOP) for e in elem_of.get(o["o"], [])):
+            places.append(("elem", o, None))
+    r.shuffle(places)
+    placed, last = 0, None
+
+    def fs_array(depth):
+        elems = []
+        for _ in range(r.choice([1, 1, 2, 3])):
+            x = r.random()
+            if x < 0.1:
+                elems.append(None)
+            elif x < 0.3 and depth < 2:
+                elems.append({"ref": fs_array(depth + 1)})
+            elif x < 0.36:
+                elems.append({"ref": add.new(T + "StringArray", {"elements": {"list": [scen.rval(r, "str") for _ in range(r.choice([0, 2]))]}})})
+            elif x < 0.42:
+                elems.append({"ref": add.mklist("FS", [{"ref": r.choice(loose)["o"]}])})
+            else:
+                elems.append({"ref": r.choice(loose if r.random() < 0.8 else plain)["o"]})
+        return add.new(scen.FS_ARRAY, {"elements": {"list": elems}})
+
+    for kind, o, slot in places[:r.choice([1, 2, 3, 5])]:
+        if last is not None and r.random() < 0.25:
+            lab = last                                    # the same collection at a second place
+        elif kind == "slot" and r.random() < 0.12:
+            k = r.choice(["StringArray", "IntegerArray"])
+            lab = add.new(T + k, {"elements": {"list": [scen.rval(r, scen.ARRS[T + k]) for _ in range(r.choice([0, 1, 3]))]}})
+        elif kind == "slot" and r.random() < 0.1:
+            lab = add.mklist("FS", [{"ref": r.choice(loose)["o"]}, {"ref": fs_array(1)}])
+        else:
+            lab = last = fs_array(0)
+        if kind == "slot":
+            o["slots"][slot] = {"ref": lab}
+        else:
+            l = o["slots"].setdefault("elements", {"list": []})["list"]
+            if l and r.random() < 0.5:
+                l[r.randrange(len(l))] = {"ref": lab}
+            else:
+                l.insert(r.randint(0, len(l)), {"ref": lab})
+        placed += 1
+    return placed
+
+
+def widen(seed, cassis, sc):
+    """C04's post-processing of a gen_scenario result; every choice from its own streams so that the rest of the scenario is
+    what it was before (and the earlier catches with it)."""
+    import random
+    r1, r2 = random.Random(seed ^ 0x5A3E), random.Random(seed ^ 0xC011)
+    sc["knobs"] = {}
+    if r1.random() < 0.4:
+        sc["knobs"]["same_name"] = same_name_features(r1, cassis, sc["ts"], sc["cas"])
+    if r2.random() < 0.45:
+        sc["knobs"]["coll_targets"] = collections_as_targets(r2, cassis, sc["ts"], sc["cas"])
+    return sc
+
+
 # ------------------------------------------------------------------------------------------------ floats
 
 
